@@ -114,20 +114,39 @@ Print Assumptions C13_len_overflow_old_refuted.
      - through which every read finds its memory (view_backed: the whole borrowed range reads back),
      - whose map_offset is the requested offset, and (all types but MappedOption) whose map_len ends inside the
        file. MappedOption::map_len is the size element + 1 as found in the file: it is not checked against the
-       file or the nested view, and no memory access depends on it. *)
+       file or the nested view, and no memory access depends on it,
+     - and, for an integer-vector view (directly or inside options), whose width element is in 1..64
+       (view_int_widths; since the repair ed19660 of finding F14 any other width is refused with InvalidData). *)
 Theorem C13_any_file_no_panic : forall m t file offset,
   lenN file < 2 ^ 61 -> offset < 2 ^ 64 ->
   match view_new m t file offset with
   | VOk v =>
       view_inside file v /\ view_backed v /\
       view_map_offset m v = Ok offset /\
-      (is_opt t = false -> exists l, view_map_len m v = Ok l /\ offset + l <= lenN file)
+      (is_opt t = false -> exists l, view_map_len m v = Ok l /\ offset + l <= lenN file) /\
+      view_int_widths v
   | VErr _ => True
   | VPanic _ => False
   | VOOB _ => False
   end.
-Proof. exact any_file_no_panic. Qed.
+Proof.
+  intros m t file offset Hf Ho. pose proof (any_file_no_panic m t file offset Hf Ho) as H.
+  pose proof (any_file_int_width m t file offset) as Hw.
+  destruct (view_new m t file offset) as [v| | |]; cbn [new_safe] in *; try exact H.
+  destruct H as (H1 & H2 & H3 & H4). auto.
+Qed.
 Print Assumptions C13_any_file_no_panic.
+
+(* IntVectorMapper::new on a file with a width element of 0 or above 64 at offset + 1 (any file that has that
+   element, any other content): Err(InvalidData) in both build modes - before anything else of the structure is
+   looked at, and never a panic *)
+Theorem C13_bad_width_refused : forall m file offset width,
+  lenN file < 2 ^ 64 -> nthN file (offset + 1) = Some width -> width = 0 \/ 64 < width ->
+  view_new m TyInt file offset = VErr InvalidData.
+Proof.
+  intros m file offset width Hf Hw Hb. cbn [view_new]. rewrite (im_new_badwidth m file offset width Hw Hf Hb). reflexivity.
+Qed.
+Print Assumptions C13_bad_width_refused.
 
 (* The model's reading of str::from_utf8 (the byte-range table 3-7 of the Unicode standard) accepts exactly the
    byte strings that decode, lead byte + 6-bit continuation bytes, to scalar values in shortest form
